@@ -38,9 +38,12 @@ struct Obs {
 	result: Option<String>, // "Ok" | "Conflict" | "Retry" | "Err:<..>"
 	log_failed: bool,
 	apply_failed: bool,
+	/// what the transaction read for each of its keys right after begin ("" = absent): its snapshot
+	seen: BTreeMap<String, String>,
 }
 
 struct Actor {
+	dup: u64,
 	token: u64,
 	handle: Option<std::thread::JoinHandle<()>>,
 	obs: Arc<Mutex<Obs>>,
@@ -156,14 +159,31 @@ fn run_schedule(sc: &Value, sink: &Arc<GateSink>, reopen: bool) -> Result<(Vec<V
 			let token = TOKEN.fetch_add(1, Ordering::SeqCst);
 			let obs = Arc::new(Mutex::new(Obs::default()));
 			let keys: Vec<String> = wr[&t].as_array().unwrap().iter().map(|k| k.as_str().unwrap().to_string()).collect();
+			let dup2 = sc["dup"].get(&t).and_then(|d| d.as_u64()).unwrap_or(0);
 			let (tree2, sink2, obs2, keys2, tname) = (tree.clone(), sink.clone(), obs.clone(), keys.clone(), t.clone());
+			let obs3 = obs.clone();
 			let handle = std::thread::spawn(move || {
 				GateSink::enroll(token);
 				let rt = verif_harness::rt();
 				let res = verif_harness::catch(|| {
 					let mut txn = tree2.begin().expect("begin");
+					{
+						let mut o = obs3.lock().unwrap();
+						for k in &keys2 {
+							let v = txn.get(key_bytes(k)).expect("get");
+							o.seen.insert(k.clone(), v.map(|b| String::from_utf8_lossy(&b).trim_start_matches("val-").to_string()).unwrap_or_default());
+						}
+					}
 					sink2.gate_here("actor.begun", &[]);
-					for k in &keys2 {
+					// a batch with `dup` repeated entries: the LAST key (in reverse order) is written under an
+					// extra savepoint first, so the batch is [kN, kN, ..., k1] - a repeated key followed by others
+					let mut order: Vec<&String> = keys2.iter().collect();
+					order.reverse();
+					for _ in 0..dup2 {
+						txn.set(key_bytes(order[0]), val_of(&tname)).expect("set");
+						txn.set_savepoint().expect("savepoint");
+					}
+					for k in order {
 						txn.set(key_bytes(k), val_of(&tname)).expect("set");
 					}
 					let r = rt.block_on(txn.commit());
@@ -181,7 +201,7 @@ fn run_schedule(sc: &Value, sink: &Arc<GateSink>, reopen: bool) -> Result<(Vec<V
 				drop(tree2);
 				sink2.finish(token);
 			});
-			let mut a = Actor { token, handle: Some(handle), obs, keys, site: "spawned", done: false };
+			let mut a = Actor { dup: dup2, token, handle: Some(handle), obs, keys, site: "spawned", done: false };
 			// wait for the first park (txn.begin.loaded), then run to "actor.begun"
 			match sink.status(token, STEP_TIMEOUT) {
 				Status::Parked(site, fields) => {
@@ -216,7 +236,7 @@ fn run_schedule(sc: &Value, sink: &Arc<GateSink>, reopen: bool) -> Result<(Vec<V
 			};
 			// failpoints are thread-local to the actor: arm through a tiny trampoline gate
 			if act == "CriticalLogFail" || act == "ApplyFail" {
-				a.obs.lock().unwrap().count = a.keys.len() as u64;
+				a.obs.lock().unwrap().count = a.keys.len() as u64 + a.dup;
 				sink.arm_failpoint_for(a.token, if act == "ApplyFail" { "commit.apply" } else { "commit.log_append" });
 			}
 			let before = a.site;
@@ -251,7 +271,7 @@ fn run_schedule(sc: &Value, sink: &Arc<GateSink>, reopen: bool) -> Result<(Vec<V
 				o.seq.map(|s| {
 					let failed = o.log_failed
 						|| o.apply_failed || matches!(o.result.as_deref(), Some(r) if r != "Ok");
-					(n.clone(), s, a.keys.len() as u64, a.keys.clone(), failed)
+					(n.clone(), s, a.keys.len() as u64 + a.dup, a.keys.clone(), failed)
 				})
 			})
 			.collect();
@@ -352,18 +372,34 @@ fn run_schedule(sc: &Value, sink: &Arc<GateSink>, reopen: bool) -> Result<(Vec<V
 				continue;
 			}
 			if let (Some(sa), Some(sb), Some(stb)) = (a.seq, b.seq, b.start) {
-				let last_a = sa + ka.len() as u64 - 1;
+				let last_a = sa + ka.len() as u64 + actors[*na].dup - 1;
 				if sa < sb && stb < last_a {
 					viol.push(json!({"kind":"both_overlapping_writers_committed","first":na,"second":nb,
-						"first_last_seq":last_a,"second_start":stb}));
+						"first_last_seq":last_a,"second_start":stb,"by":"sequence_numbers"}));
 				}
+			}
+		}
+	}
+	// The property's own formulation, without trusting the sequence numbers for WHO overlapped: order the committed
+	// writers of every key by their commit order; each must have had its predecessor's write in its snapshot (what it
+	// read right after begin). A writer that committed on top of a version it never saw is a lost update.
+	for k in &all_keys {
+		let mut ws: Vec<(&String, &Obs)> = committed.iter().filter(|(n, _)| actors[*n].keys.contains(k)).map(|(n, o)| (*n, *o)).collect();
+		ws.sort_by_key(|(_, o)| o.seq.unwrap_or(0));
+		for w in ws.windows(2) {
+			let (pn, _po) = w[0];
+			let (nn, no) = w[1];
+			let saw = no.seen.get(k).cloned().unwrap_or_default();
+			if &saw != pn {
+				viol.push(json!({"kind":"both_overlapping_writers_committed","by":"snapshot_of_later_writer","key":k,
+					"earlier":pn,"later":nn,"later_saw":saw}));
 			}
 		}
 	}
 	// final state = newest committed writer per key; failed / conflicting writers left nothing
 	let batches: Vec<(String, u64, u64, Vec<String>, bool)> = obs
 		.iter()
-		.filter_map(|(n, o)| o.seq.map(|s| (n.clone(), s, actors[n].keys.len() as u64, actors[n].keys.clone(), o.result.as_deref() != Some("Ok"))))
+		.filter_map(|(n, o)| o.seq.map(|s| (n.clone(), s, actors[n].keys.len() as u64 + actors[n].dup, actors[n].keys.clone(), o.result.as_deref() != Some("Ok"))))
 		.collect();
 	let want = view_at(u64::MAX - 1, &batches);
 	let got = probe(&tree, &all_keys)?;
